@@ -35,8 +35,12 @@ fn main() -> Result<(), Box<dyn Error>> {
         }
         xml_xpath::eval::model::Value::Node(nodes) => {
             for node in nodes {
-                replace(node, arg.value.as_str())?;
+                replace(node, arg.value.as_str(), &dom)?;
             }
+
+            // Replacing the children of the document node may leave it without an element.
+            dom.document_element()
+                .map_err(|_| "The result has no document element.")?;
         }
         xml_xpath::eval::model::Value::Number(_) => {
             return Err("Specify XML element not value using XPATH.".into());
@@ -163,19 +167,23 @@ fn parse_node(node: &str) -> Result<xml_dom::XmlElement, Box<dyn Error>> {
     Ok(dom.borrow().document_element()?)
 }
 
-fn replace(node: xml_dom::XmlNode, value: &str) -> Result<(), Box<dyn Error>> {
+fn replace(
+    node: xml_dom::XmlNode,
+    value: &str,
+    doc: &xml_dom::XmlDocument,
+) -> Result<(), Box<dyn Error>> {
     match node {
         xml_dom::XmlNode::Document(v) => {
             clear_child(v.clone())?;
-            append_child(v, value)?;
+            append_child(v, value, doc)?;
         }
         xml_dom::XmlNode::Attribute(v) => {
             clear_child(v.clone())?;
-            append_child(v, value)?;
+            append_child(v, value, doc)?;
         }
         xml_dom::XmlNode::Element(v) => {
             clear_child(v.clone())?;
-            append_child(v, value)?;
+            append_child(v, value, doc)?;
         }
         _ => {
             return Err("Specify XML element not value using XPATH.".into());
@@ -198,29 +206,32 @@ where
     Ok(())
 }
 
-fn append_child<T>(node: T, value: &str) -> Result<(), Box<dyn Error>>
+fn append_child<T>(node: T, value: &str, doc: &xml_dom::XmlDocument) -> Result<(), Box<dyn Error>>
 where
     T: Clone + xml_dom::Node + xml_dom::NodeMut,
 {
     let new_value = parse_node(value)?;
 
     for child in new_value.child_nodes().iter() {
-        append_child_to_tree(node.clone(), child)?;
+        append_child_to_tree(node.clone(), child, doc)?;
     }
 
     Ok(())
 }
 
-fn append_child_to_tree<T>(node: T, child: xml_dom::XmlNode) -> Result<(), Box<dyn Error>>
+// The new nodes are created by `doc`, the document being edited: the document node itself has
+// no owner document to ask.
+fn append_child_to_tree<T>(
+    node: T,
+    child: xml_dom::XmlNode,
+    doc: &xml_dom::XmlDocument,
+) -> Result<(), Box<dyn Error>>
 where
     T: Clone + xml_dom::Node + xml_dom::NodeMut,
 {
     match child {
         xml_dom::XmlNode::Attribute(v) => {
-            let mut n = node
-                .owner_document()
-                .unwrap()
-                .create_attribute(v.name().as_str())?;
+            let mut n = doc.create_attribute(v.name().as_str())?;
             n.borrow_mut().set_value(v.value()?.as_str())?;
 
             if let Some(mut attr) = node.attributes() {
@@ -230,48 +241,33 @@ where
             }
         }
         xml_dom::XmlNode::CData(v) => {
-            let n = node
-                .owner_document()
-                .unwrap()
-                .create_cdata_section(v.data()?.as_str());
+            let n = doc.create_cdata_section(v.data()?.as_str());
             node.append_child(n.as_node())?;
         }
         xml_dom::XmlNode::Comment(v) => {
-            let n = node
-                .owner_document()
-                .unwrap()
-                .create_comment(v.data()?.as_str());
+            let n = doc.create_comment(v.data()?.as_str());
             node.append_child(n.as_node())?;
         }
         xml_dom::XmlNode::Element(v) => {
-            let n = node
-                .owner_document()
-                .unwrap()
-                .create_element(v.tag_name().as_str())?;
+            let n = doc.create_element(v.tag_name().as_str())?;
             node.append_child(n.as_node())?;
 
             if let Some(attributes) = v.attributes() {
                 for descendant in attributes.iter() {
-                    append_child_to_tree(n.clone(), descendant.as_node())?;
+                    append_child_to_tree(n.clone(), descendant.as_node(), doc)?;
                 }
             }
 
             for descendant in v.child_nodes().iter() {
-                append_child_to_tree(n.clone(), descendant)?;
+                append_child_to_tree(n.clone(), descendant, doc)?;
             }
         }
         xml_dom::XmlNode::EntityReference(v) => {
-            let n = node
-                .owner_document()
-                .unwrap()
-                .create_entity_reference(v.node_name().as_str())?;
+            let n = doc.create_entity_reference(v.node_name().as_str())?;
             node.append_child(n.as_node())?;
         }
         xml_dom::XmlNode::Text(v) => {
-            let n = node
-                .owner_document()
-                .unwrap()
-                .create_text_node(v.data()?.as_str());
+            let n = doc.create_text_node(v.data()?.as_str());
             node.append_child(n.as_node())?;
         }
         _ => {
